@@ -329,7 +329,13 @@ func c16Transient(s *scen, req sim.RequestSpec, faults []sim.Fault, label string
 	o.findings = append(o.findings, fs...)
 	hf, _ := sim.CheckHandoffStores(res, ref, s.pkg)
 	o.findings = append(o.findings, hf...)
-	time.Sleep(50 * time.Millisecond) // let zombie jobs finish their writes before auditing
+	// let zombie jobs finish their writes before auditing: wait for every server-side handler to return
+	ready, ok := rt.Quiesce()
+	if ok && maxConcurrent > 0 {
+		if !ready {
+			o.findings = append(o.findings, sim.Finding{Sig: "overload/tier2-not-ready-after-all-jobs-ended", What: fmt.Sprintf("tier2 limited to %d concurrent request(s): after the request completed and every ProcessRange handler returned, the service still signals not-ready (a request slot was never released); it had signalled not-ready %d times", maxConcurrent, rt.NotReadySignals.Load())})
+		}
+	}
 	af, _ := cl.AuditCache(ref, s.pkg)
 	o.findings = append(o.findings, af...)
 	o.nontrivial = len(o.triggered) > 0 || (label == "overload" && rt.Calls > 0)
